@@ -119,8 +119,21 @@ Definition cur_valid (c : scase) : bool :=
   | _ => true
   end.
 
+(* What the theorems ask of the inputs: a COPY needs a valid current instance (C01_entry_sound); an entry
+   point that funnels into the constructor re-validates every value it takes from the current instance,
+   so only the Structure instances nested in the keyword arguments have to be valid (C01_chain_deep_sound:
+   class references are checked by isinstance only).  In particular an instance that has gone ill-typed
+   since it was built - an unwrapped inner container altered in place - must still be REJECTED by
+   shallow_clone_with_overrides / cast_to / from_other_class / Cls(f=x.f): such steps are in the domain. *)
+Definition plan_inputs_ok (c : scase) (pl : plan) : bool :=
+  match pl with
+  | PConstruct _ kw => vals_deep (sre c) (sc_env c) kw
+  | PValue _ => cur_valid c
+  | PRaise _ => true
+  end.
+
 Definition sin_dom (c : scase) : bool :=
-  negb (snonfinite c) && cur_valid c &&
+  negb (snonfinite c) && plan_inputs_ok c (entry_plan (sc_env c) (sc_cur c) (sc_entry c)) &&
   plan_dom (entry_plan (sc_env c) (sc_cur c) (sc_entry c)).
 
 (* the hypotheses of C01_entry_sound hold *)
@@ -200,7 +213,7 @@ Definition sflags (c : scase) : list bool :=
   let unm := match m with Raise Unmodelled => true | _ => false end in
   let nonfin := snonfinite c in
   let copyraised := match plan with PValue _ => negb (saccepted c) | _ => false end in
-  let dom := negb nonfin && cur_valid c && plan_dom plan in
+  let dom := negb nonfin && plan_inputs_ok c plan && plan_dom plan in
   let thm := dom && entry_dom (sre c) (sc_env c) (sc_cur c) (sc_entry c) in
   let stricter := negb (plan_stable c plan) && negb nonfin &&
                   match m, sc_obs c with Ok _, Raise x => is_te_ve x | _, _ => false end in
